@@ -105,7 +105,7 @@ SimilarClauses(e, tol) ==
   UNION { Chk("SIM." \o n, SameF(e.b[n], Mul(e.a[n], PowQ(e.tratio, SimExp(e.fam, e.geometry, e.omega)[n])), tol,
                                  Mul(e.fl[n], PowQ(e.tratio, SimExp(e.fam, e.geometry, e.omega)[n])))) : n \in DOMAIN e.a }
 
-RelTol == [closed |-> 20, root |-> 200, ode |-> 2000, series |-> 200, table |-> 20000, sedov |-> 20000, ehep |-> 20]
+RelTol == [closed |-> 20, root |-> 200, ode |-> 2000, series |-> 200, table |-> 20000, sedov |-> 20000, ehep |-> 20, geos |-> 20000]
 RelClauses(e) ==
   LET t == RelTol[e.res] IN
   CASE e.rel = "Unit"    -> UnitClauses(e, 50)      \* the same algorithm on rescaled inputs: round-off only, whatever the resolution class
